@@ -38,6 +38,8 @@ const (
 	c16Tags    = 8  // versions per identifier ("w0".."w7", cyclic)
 	c16Chunk   = 64 // acknowledged stores packed per trace line
 	c16Timeout = 120 * time.Second
+	// a store on a closed store returns in microseconds; 20 s is > 10^5 times that
+	c16StallTimeout = 20 * time.Second
 )
 
 // identifier table of a directory: streams whose target chains render as prefixes of each other.
@@ -318,6 +320,7 @@ type c16Stats struct {
 	cycles, killsEarly, killsRun, killsAck, storesAcked, storesUnacked, unackedSurvived, unackedLost int
 	neverOpened, selfExit, gets                                                                      int
 	maxAcks                                                                                          int
+	closedRefused, closedAcked, closedStalled                                                        int
 }
 
 // one directory: returns the trace lines, stats, and a non-empty string when the run is undecided (broken).
@@ -360,6 +363,8 @@ func c16Dir(base string, dirIdx int, seed int64, cycles, maxStores int, maxRun t
 	last := map[int]string{} // identifier index -> tag found after the previous reopen ("" = absent)
 
 	plans := c16Plans(rand.New(rand.NewSource(dirSeed*31+3)), cycles, maxRun)
+	closedRnd := rand.New(rand.NewSource(dirSeed*53 + 11))
+	closedStalled := false
 	for cyc, plan := range plans {
 		st.cycles++
 		for _, id := range ids { // everything this cycle's child can write
@@ -534,6 +539,73 @@ func c16Dir(base string, dirIdx int, seed int64, cycles, maxStores int, maxRun t
 		}
 		cerr := d.Close()
 		log("Close", nil, map[string]interface{}{"err": shErrStr(cerr)})
+
+		// A store racing with shutdown: StoreSignedVAA on the handle that has just been closed - a commit Badger
+		// refuses.  The reply is logged; the specification decides from it: nil = acknowledged, the VAA has to be
+		// found from now on (looked up right after a reopen, and again after the next cycle's kill); an error =
+		// refused, nothing has to be there.
+		if !closedStalled && (cyc == 0 || closedRnd.Intn(3) == 0) {
+			n := 1 + closedRnd.Intn(2)
+			for j := 0; j < n && !closedStalled; j++ {
+				k := closedRnd.Intn(c16Stored)
+				tag := c16Tag(closedRnd.Intn(c16Tags))
+				v := c16Build(w, ids[k], tag, cyc)
+				// the call runs under a watchdog: an implementation that hands the commit to a pipeline which a closed
+				// store no longer drains would block here for ever.  A call that does not return has not acknowledged
+				// anything (logged as refused, "stall: ..."); no further closed-store calls are made on this directory.
+				reply := make(chan string, 1)
+				go func() {
+					defer func() {
+						if p := recover(); p != nil {
+							reply <- shErrStr(fmt.Errorf("panic: %v", p))
+						}
+					}()
+					reply <- shErrStr(d.StoreSignedVAA(shToVAA(v)))
+				}()
+				var errs string
+				select {
+				case errs = <-reply:
+				case <-time.After(c16StallTimeout):
+					errs = "stall: StoreSignedVAA on a closed store did not return within " + c16StallTimeout.String()
+					closedStalled = true
+					st.closedStalled++
+				}
+				log("StoreClosed", map[string]interface{}{"v": map[string]interface{}{"id": ids[k].J(), "tag": tag}, "cycle": cyc},
+					map[string]interface{}{"err": errs})
+				if errs == "" {
+					st.closedAcked++
+				} else {
+					st.closedRefused++
+				}
+			}
+			d2, err := Open(dir)
+			if err != nil {
+				log("Reopen", map[string]interface{}{"who": "parent", "cycle": cyc, "after": "closed-store"}, map[string]interface{}{"ok": false, "err": shErrStr(err)})
+				return lines, st, ""
+			}
+			log("Reopen", map[string]interface{}{"who": "parent", "cycle": cyc, "after": "closed-store"}, map[string]interface{}{"ok": true, "err": ""})
+			for k := range ids {
+				b, err := d2.GetSignedVAABytes(vids[k])
+				code, errs := "OK", ""
+				res := []interface{}{}
+				if err == ErrVAANotFound {
+					code = "NotFound"
+				} else if err != nil {
+					code, errs = "Error", shErrStr(err)
+				} else {
+					c := w.classify(b)
+					if wc, ok := wroteIn[sha256.Sum256(b)]; ok {
+						c["wc"] = wc
+					}
+					res = append(res, c)
+				}
+				log("Get", map[string]interface{}{"id": ids[k].J(), "via": "db", "pass": 1, "after": "closed-store"},
+					map[string]interface{}{"err": errs, "code": code, "res": res})
+				st.gets++
+			}
+			cerr := d2.Close()
+			log("Close", nil, map[string]interface{}{"err": shErrStr(cerr)})
+		}
 	}
 	return lines, st, ""
 }
@@ -576,9 +648,9 @@ func TestVerifStoreCrash(t *testing.T) {
 	}
 	fmt.Printf("VERIF-C16 {\"cycles\":%d,\"kills_while_opening\":%d,\"kills_timed\":%d,\"kills_on_ack\":%d,\"stores_acked\":%d,"+
 		"\"stores_unacked\":%d,\"unacked_survived\":%d,\"unacked_lost\":%d,\"killed_before_opened\":%d,\"child_exited_by_itself\":%d,"+
-		"\"lookups\":%d,\"max_acks_in_a_cycle\":%d,\"lines\":%d}\n",
+		"\"lookups\":%d,\"max_acks_in_a_cycle\":%d,\"stores_on_closed_store_refused\":%d,\"stores_on_closed_store_acknowledged\":%d,\"stores_on_closed_store_stalled\":%d,\"lines\":%d}\n",
 		st.cycles, st.killsEarly, st.killsRun, st.killsAck, st.storesAcked, st.storesUnacked, st.unackedSurvived,
-		st.unackedLost, st.neverOpened, st.selfExit, st.gets, st.maxAcks, tr.n)
+		st.unackedLost, st.neverOpened, st.selfExit, st.gets, st.maxAcks, st.closedRefused, st.closedAcked, st.closedStalled, tr.n)
 }
 
 // Informational probe (not part of the verdict): the directory state a kill between the creation and the sizing
